@@ -23,6 +23,8 @@ func checkC11(p *Prog, r *Report) {
 	c11Files(p, r)
 	// results are the same alone or together: the session carries no state a run could leave behind for another (shared with C03.R2b)
 	c03Session(p, r, p.SSA(), "C11.R5")
+	// a run must see its own files: the session cache hands out the bytes of exactly the path asked for (shared with C03.R2c)
+	c03PoolKey(p, r, "C11.R6")
 }
 
 // runReachableDecls maps the CHA run-reachable slice back to declarations.
